@@ -46,6 +46,74 @@ fn class_of(path: &str, op: Op) -> Option<String> {
     Some(format!("{}.{}", fc, o))
 }
 
+const F1: &str = "C15-failed-commit-record-stays-in-log";
+
+/// Directed fault scenario: one committer, every commit synced, the 4th sync of the commit
+/// log fails once with EIO. Returns the witness if the failed transaction is back after a
+/// process crash at the end of the run.
+fn directed_f1(scratch: &std::path::Path) -> Result<Option<String>, String> {
+    let cfg = Cfg { flush_on_close: false, max_memtable_size: 1 << 20, ..Cfg::default() };
+    let w = Workload {
+        txns: 10,
+        committers: 1,
+        nkeys: 4,
+        max_value: 40,
+        immediate_pct: 100,
+        sync_every: 0,
+        close_at_end: false,
+        delete_pct: 0,
+        first_txn: 1,
+        big_batch_pct: 0,
+        manual_flush_every: 1000,
+        hook_rotate_pct: 0,
+        hook_flush_pct: 0,
+    };
+    let t = e2::run_worker(scratch, "f1", &cfg, &w, 77, Some("wal.fsync:3:eio:once"), None)?;
+    let failed: Vec<u64> = t.failed.iter().map(|f| f.id).collect();
+    if failed.is_empty() {
+        cleanup(scratch, "f1", &t);
+        return Err("the injected sync failure did not make any commit fail".into());
+    }
+    for f in &t.failed {
+        if f.err.contains("[VISIBLE-AFTER-ERROR]") {
+            cleanup(scratch, "f1", &t);
+            return Ok(Some(format!("commit of transaction {} failed ({}) and a reader begun afterwards sees it", f.id, f.err)));
+        }
+    }
+    let mut pr = Rng::new(1);
+    let plans: Vec<_> = e2::plan_images(&t, &mut pr, false, 1).into_iter().filter(|p| p.loss == crate::trace::Loss::Process).collect();
+    let last = plans.last().cloned().ok_or("no crash image")?;
+    let job = Job {
+        trace_file: scratch.join("f1.trace"),
+        root: t.root.clone(),
+        cfg: cfg.clone(),
+        txns: t.txns.clone(),
+        failed: failed.clone(),
+        plans: vec![last],
+        probe_every: 0,
+        base_dir: None,
+        keep_dir: None,
+    };
+    let jobfile = scratch.join("f1.job.json");
+    std::fs::write(&jobfile, serde_json::to_vec(&job.to_json()).unwrap()).map_err(|e| e.to_string())?;
+    let pool = e2::run_pool(&jobfile, 1, 1);
+    let _ = std::fs::remove_file(&jobfile);
+    cleanup(scratch, "f1", &t);
+    for res in pool.results {
+        for pb in res["problems"].as_array().cloned().unwrap_or_default() {
+            if pb[0] == "failed_visible" {
+                return Ok(Some(format!(
+                    "10 synced commits, the 4th sync of the commit log fails once with EIO: commit of transaction {} returns an error ({}), later commits are acknowledged; after a process crash and restart: {}",
+                    failed[0],
+                    t.failed[0].err,
+                    pb[1].as_str().unwrap_or("")
+                )));
+            }
+        }
+    }
+    Ok(None)
+}
+
 struct Base {
     cfg: Cfg,
     w: Workload,
@@ -60,6 +128,19 @@ pub fn run(a: &Args) -> i32 {
     let _ = open_scen;
     let scratch = crate::e1::scratch_root().join("c15");
     let _ = std::fs::create_dir_all(&scratch);
+    let findings = crate::evidence::load_findings();
+    let finding_f1_open = crate::evidence::finding_open(&findings, F1);
+    match directed_f1(&scratch) {
+        Ok(None) => {}
+        Ok(Some(what)) => {
+            if finding_f1_open {
+                run.known_finding(F1, &what);
+            } else {
+                run.violation(&format!("directed scenario {}: {}", F1, what), json!({"engine": "c15", "scenario": F1}));
+            }
+        }
+        Err(e) => run.inconclusive(&format!("directed scenario {}: {}", F1, e)),
+    }
     let nbases = a.tier.pick(4, 12);
     let per_base = a.tier.pick(44, 400);
     let mut r = Rng::new(a.seed ^ 0xC15);
@@ -153,6 +234,7 @@ pub fn run(a: &Args) -> i32 {
     let failed_commits = AtomicU64::new(0);
     let acked_after_failure = AtomicU64::new(0);
     let images = AtomicU64::new(0);
+    let masked = AtomicU64::new(0);
     let found: Mutex<Vec<(String, String, J)>> = Mutex::new(vec![]);
     let inconclusive: Mutex<Vec<String>> = Mutex::new(vec![]);
     let sigs: Mutex<BTreeSet<String>> = Mutex::new(BTreeSet::new());
@@ -199,6 +281,14 @@ pub fn run(a: &Args) -> i32 {
             acked_after_failure.fetch_add(t.txns.iter().filter(|x| x.id > ff).count() as u64, Ordering::Relaxed);
         }
         // an acknowledged transaction whose marker key is missing at the end of the run
+        let scan_ok = t.worker_out["marker_scan_ok"].as_bool().unwrap_or(false);
+        if !scan_ok {
+            // the commit order could not be read back (the store is in its error state and the
+            // final scan failed): nothing after the run can be judged
+            sigs.lock().unwrap().insert(format!("{}|final_scan_failed", p.spec.split(':').next().unwrap()));
+            cleanup(&scratch, &name, &t);
+            return;
+        }
         for x in &t.txns {
             if x.first_seq == 0 {
                 found.lock().unwrap().push(("lost_live".into(), format!("fault {}: transaction {} was acknowledged but its marker key is absent at the end of the run", p.spec, x.id), rep.clone()));
@@ -218,7 +308,7 @@ pub fn run(a: &Args) -> i32 {
         let mut keep = vec![];
         let n = img_plans.len();
         for (i, ip) in img_plans.drain(..).enumerate() {
-            if ip.upto >= fault_pos && (i + 40 >= n || pr.chance(1, 8)) {
+            if ip.upto >= fault_pos && (i + 40 >= n || pr.chance(1, 8) || keep_all) {
                 keep.push(ip);
             }
         }
@@ -249,10 +339,20 @@ pub fn run(a: &Args) -> i32 {
             found.lock().unwrap().push(("verifier_died".into(), format!("fault {}: the verifier died ({}) on crash image {} ({:?})", p.spec, st, i, keep[i].loss), rep.clone()));
         }
         for res in pool.results {
-            for pb in res["problems"].as_array().cloned().unwrap_or_default() {
+            let probs = res["problems"].as_array().cloned().unwrap_or_default();
+            // open known finding C15-failed-commit-record-stays-in-log: the commit failed at the
+            // commit log (append or sync), its record stays there and recovery replays it. Exactly
+            // that pattern is masked: fault on the commit log, the image shows a failed
+            // transaction, and the only problems are its presence and the non-prefix state it causes.
+            let replayed = p.spec.starts_with("wal.") && probs.iter().any(|pb| pb[0] == "failed_visible");
+            for pb in probs {
                 let class = pb[0].as_str().unwrap_or("?").to_string();
                 let idx = res["idx"].as_u64().unwrap_or(0) as usize;
                 let ip = &keep[idx.min(keep.len() - 1)];
+                if replayed && finding_f1_open && (class == "failed_visible" || class == "prefix") {
+                    masked.fetch_add(1, Ordering::Relaxed);
+                    continue;
+                }
                 found.lock().unwrap().push((class, format!("fault {}; crash after trace record {} ({:?}): {}", p.spec, ip.upto, ip.loss, pb[1].as_str().unwrap_or("")), rep.clone()));
             }
         }
@@ -286,6 +386,7 @@ pub fn run(a: &Args) -> i32 {
     run.cov("commits_acknowledged_after_a_failure", json!(acked_after_failure.load(Ordering::Relaxed)));
     run.cov("crash_images_verified", json!(images.load(Ordering::Relaxed)));
     run.cov("problem_classes", json!(reported));
+    run.cov("crash_image_problems_attributed_to_open_finding", json!(masked.load(Ordering::Relaxed)));
     run.assumptions = vec![
         "faults are injected by the LD_PRELOAD layer (shim/iotrace.c): the n-th write / fsync / rename on a file class fails with EIO or ENOSPC or is cut short, once or from then on; ordinals come from a fault-free run of the same deterministic workload (background tasks in manual mode)".into(),
         "after a failure the store may keep accepting commits or report a sticky error: both are accepted; what is checked is that failed transactions are invisible (live and after recovery) and that transactions acknowledged afterwards are recovered".into(),
